@@ -175,6 +175,7 @@ func (r *runner) put(rec *hx.Record) {
 type runner struct {
 	mu      sync.Mutex
 	crashes int // protocol inputs attributed to a dead worker in this run
+	coqMu   sync.Mutex
 	tr      *hx.Trace
 	sw      *syncWorld
 	rng     *hx.Rng
@@ -612,14 +613,34 @@ func main() {
 	}()
 
 	if only != "proto" {
-		for _, sd := range r.sw.seeds {
-			t0, n0 := time.Now(), r.n
-			r.runSeed(sd)
+		// the seeds are independent: three of them at a time
+		next := make(chan *Seed)
 
-			if os.Getenv("C03_TIMING") != "" {
-				fmt.Fprintf(os.Stderr, "c03: seed %s: %d calls, %v\n", sd.Name, r.n-n0, time.Since(t0))
-			}
+		var wg sync.WaitGroup
+
+		for w := 0; w < 3; w++ {
+			wg.Add(1)
+
+			go func() {
+				defer wg.Done()
+
+				for sd := range next {
+					t0 := time.Now()
+					r.runSeed(sd)
+
+					if os.Getenv("C03_TIMING") != "" {
+						fmt.Fprintf(os.Stderr, "c03: seed %s: %v\n", sd.Name, time.Since(t0))
+					}
+				}
+			}()
 		}
+
+		for _, sd := range r.sw.seeds {
+			next <- sd
+		}
+
+		close(next)
+		wg.Wait()
 	}
 
 	<-protoDone
